@@ -1,0 +1,8 @@
+//go:build verif
+// +build verif
+
+package distributed
+
+// VerifSetClock replaces the package clock used to stamp local writes, so that the
+// verification harness can give every node its own (skewed) clock. Build tag "verif" only.
+func VerifSetClock(f func() int64) { clock = f }
